@@ -409,6 +409,13 @@ func (fi *FuncInfo) beyond(g lin.Con) string {
 			if why := fi.contentValidated(v); why != "" {
 				return why
 			}
+			// only for goals that relate the length to another quantity: a constant
+			// minimum length must be established by the predicate in so many words
+			if len(g.F.Terms()) >= 2 {
+				if why := fi.viewValidated(v, 0); why != "" {
+					return why
+				}
+			}
 		}
 		// strip len(...) of loads etc.: look at the value itself
 		for d := 0; d < 4; d++ {
@@ -670,4 +677,100 @@ func (fi *FuncInfo) contentValidated(v ssa.Value) string {
 		}
 	}
 	return ""
+}
+
+// viewValidated: v is a slice/string parameter of an unexported in-module
+// function all of whose call sites pass a value that an in-module predicate
+// (a function returning bool that receives the same value) accepted on the
+// way there — a "view" type whose accessors rely on a well-formedness test
+// made once by the caller (`if !v.wellFormed() { return }; v.field(k)`). What
+// that predicate establishes may relate the length to content bytes, which E1
+// does not model. Returns a description, or "".
+func (fi *FuncInfo) viewValidated(v ssa.Value, depth int) string {
+	prm, ok := v.(*ssa.Parameter)
+	if !ok || depth > 2 {
+		return ""
+	}
+	fn := prm.Parent()
+	if fn == nil || fn.Object() == nil || fn.Object().Exported() || fn.Parent() != nil {
+		return ""
+	}
+	pi := -1
+	for i, q := range fn.Params {
+		if q == prm {
+			pi = i
+		}
+	}
+	calls, ok := fi.W.staticCallsOf(fn)
+	if !ok || len(calls) == 0 || pi < 0 {
+		return ""
+	}
+	why := ""
+	for _, cl := range calls {
+		if pi >= len(cl.Common().Args) {
+			return ""
+		}
+		arg := cl.Common().Args[pi]
+		for {
+			if ct, isCT := arg.(*ssa.ChangeType); isCT {
+				arg = ct.X
+				continue
+			}
+			break
+		}
+		found := ""
+		// a dominating call of a bool-returning in-module function on the same value
+		// whose true verdict guards this call site
+		caller := cl.Parent()
+		for _, b := range caller.Blocks {
+			for _, in := range b.Instrs {
+				pc, isC := in.(*ssa.Call)
+				if !isC || pc == cl {
+					continue
+				}
+				pf := pc.Common().StaticCallee()
+				if pf == nil || !fi.W.P.InModule(pf) || pf.Signature.Results().Len() != 1 {
+					continue
+				}
+				if bt, isB := pf.Signature.Results().At(0).Type().Underlying().(*types.Basic); !isB || bt.Kind() != types.Bool {
+					continue
+				}
+				same := false
+				for _, a := range pc.Common().Args {
+					for {
+						if ct, isCT := a.(*ssa.ChangeType); isCT {
+							a = ct.X
+							continue
+						}
+						break
+					}
+					if a == arg {
+						same = true
+					}
+				}
+				if !same {
+					continue
+				}
+				cfi := fi.W.Info(caller)
+				cx := cfi.ctxBefore(cl)
+				if truth, known := cx.BoolKnown(pc); known && truth {
+					found = fi.W.P.FuncName(pf)
+				}
+			}
+		}
+		if found == "" {
+			// the call sits in another accessor of the same view, on that accessor's own parameter
+			if q, isP := arg.(*ssa.Parameter); isP {
+				found = fi.W.Info(caller).viewValidated(q, depth+1)
+			}
+		}
+		if found == "" {
+			return ""
+		}
+		why = found
+	}
+	if depth > 0 {
+		return why
+	}
+	return "the goal depends on the length of " + prm.Name() + ", whose well-formedness every caller establishes with the in-module predicate " + why + " (it may relate the length to content bytes, which this prover does not model)"
 }
